@@ -18,6 +18,10 @@ CLAIMS = {
  "C07": ("design model check of status legality on every exit path + trace validation of code/message/success against what the trace shows", "5/C07"),
  "C08": ("design liveness/exception mapping + trace validation over enumerated fault plans (NaN/inf/huge at index k or region, degenerate data, all-fixed/inconsistent bounds, callbacks): returns, barrier, success=>finite", "5/C08"),
  "C09": ("design model check of stop immediacy + trace validation with triggers placed at every site", "5/C09"),
+ "C13": ("exact oracle: TLC computes (Interp.tla, integer / rational arithmetic) the least-Frobenius-norm models of every poised lattice set and the symmetric-Broyden recursion over random update histories (incl. zero-residual replacements); every view of the real Quadratic / Models (value, gradient, Hessian, Hessian product, curvature, before and after a base shift, at two length scales) is compared within c*eps*cond; self-consistency clauses on real runs", "5/C13"),
+ "C14": ("exact oracle: for every poised subset of the lattice, every candidate point and index, Models.determinants (one index and all indices) is compared with the ratio of two exact determinants computed by TLC (Bareiss), at three power-of-two scales with a reused Models object", "5/C14"),
+ "C17": ("Constraints.tla: the theorem 'largest internal violation = largest excursion from [lb,ub]' checked by TLC on the limit/value lattice; the expected internal form (counts of inequalities / equalities, violations) of every constraint list of the universe is computed by TLC and replayed through minimize and the Problem object it builds", "5/C17"),
+ "C18": ("TrustRegion.tla model-checked exhaustively on a dyadic lattice (constants over the boundary lattice of their domains); every exported transition replayed exactly into a real TrustRegion; trace validation of every iteration of real runs (order, monotonicity, bound, penalty, centre = least merit, ties, replaced slot)", "5/C18"),
  "C19": ("the documented domains / coupling relations / defaults transcribed into Options.tla; TLC enumerates the universe of supplied-subset x boundary-lattice cells (singles, coupled pairs, all ordered pairs), minimize is called for each cell and TLC decides from order keys whether the call had to raise and whether the completed settings satisfy relations and defaults", "5/C19"),
  "C20": ("design model check + trace validation: one callback per evaluation, convention by signature, argument Acceptable among evaluations so far and equal to what would be returned, stop semantics", "5/C20"),
 }
